@@ -202,6 +202,7 @@ type FilePool struct {
 
 // Get file content from the filepool
 func (fp *FilePool) Get(fd *FileDescriptior) []byte {
+	vgate("pool.get", fd.FilePath)
 	fp.mux.Lock()
 	if fp.list == nil {
 		fp.list = make(map[string][]byte)
@@ -221,6 +222,7 @@ func (fp *FilePool) Get(fd *FileDescriptior) []byte {
 		// }
 		fp.list[fd.FilePath] = data
 	}
+	vevent("pool.get", "path", fd.FilePath, "data", fp.list[fd.FilePath], "files", len(fp.list))
 	defer fp.mux.Unlock()
 	return fp.list[fd.FilePath]
 }
